@@ -251,4 +251,23 @@ def probe_c09(oblig, tier, seed):
     return {'found': False, 'tried': tried}
 
 
-PROBES = {'C09': probe_c09, 'C08': probe_c08, 'C02': probe_c02, 'C04': probe_c04, 'C19': probe_c19, 'C12': probe_c12, 'C01': probe_c01, 'C13': probe_c01, 'C05': probe_c05, 'C03': probe_c03, 'C06': probe_c06}
+def probe_c15(oblig, tier, seed):
+    cases = [
+        ({'script': 'function f() {\n    sh -c "exit 3"\n}\nf\necho "st=$?"\n'}, 'st=3\n'),
+        ({'script': 'function f() {\n    echo "$0|$1|$2|$@"\n}\nf a b\n'}, 'f|a|b|a b\n'),
+        ({'script': 'echo "$1|$2|${3}|$@"\n', 'args': ['x', 'y z']}, 'x|y z||x y z\n'),
+        ({'script': 'sh -c "exit 4"\n'}, ''),
+    ]
+    tried = 0
+    for sp, out in cases:
+        w = dict(sp, expect_stdout=out, timeout=8)
+        if sp['script'].startswith('sh -c "exit 4"'):
+            w['expect_rc'] = 4
+        tried += 1
+        bad, detail = W.violates(w, W.observe(w))
+        if bad:
+            return _found(w, detail)
+    return {'found': False, 'tried': tried}
+
+
+PROBES = {'C15': probe_c15, 'C09': probe_c09, 'C08': probe_c08, 'C02': probe_c02, 'C04': probe_c04, 'C19': probe_c19, 'C12': probe_c12, 'C01': probe_c01, 'C13': probe_c01, 'C05': probe_c05, 'C03': probe_c03, 'C06': probe_c06}
